@@ -281,6 +281,9 @@ func Denote(s *spec.Spec, env *Env, raw any) (any, Verdict) {
 }
 
 func convert(s *spec.Spec, env *Env, raw any, depth int) (any, Verdict) {
+	if depth > 4000 {
+		return nil, Unspec
+	}
 	switch s.Kind {
 	case spec.KInt:
 		i, v := toInt(raw, s.Units)
@@ -482,31 +485,55 @@ func isValueObjectMember(p *spec.Prop, env *Env) (*spec.Spec, *Env, bool) {
 }
 
 // SubDefaults computes what an absent by-value object member is materialised from: the defaults of its
-// properties, recursively through by-value object members. nil when there is nothing to materialise.
+// properties, recursively through by-value object members (each object at most once along a path, so that
+// self-referential graphs give a finite value). nil when there is nothing to materialise.
 func SubDefaults(o *spec.Spec, env *Env, depth int) map[string]any {
-	if depth > 8 {
+	d := MergeSubDefaults(nil, o, env, map[*spec.Spec]bool{})
+	if len(d) == 0 {
 		return nil
 	}
+	return d
+}
+
+// MergeSubDefaults fills the keys that own (a declared default of the member, or nil) leaves out with the defaults
+// of the member's properties; by-value object members are treated the same way recursively.
+func MergeSubDefaults(own map[string]any, o *spec.Spec, env *Env, visiting map[*spec.Spec]bool) map[string]any {
 	data := map[string]any{}
+	for k, v := range own {
+		data[k] = v
+	}
+	if visiting[o] {
+		return data
+	}
+	visiting[o] = true
+	defer delete(visiting, o)
 	for i := range o.Props {
 		p := &o.Props[i]
+		if _, has := data[p.Name]; has {
+			continue
+		}
 		if d, ok := DefaultRaw(p); ok {
 			data[p.Name] = d
 		}
 	}
 	for i := range o.Props {
 		p := &o.Props[i]
-		if sub, senv, ok := isValueObjectMember(p, env); ok {
-			if _, has := data[p.Name]; has {
+		sub, senv, ok := isValueObjectMember(p, env)
+		if !ok || visiting[sub] {
+			continue
+		}
+		existing, has := data[p.Name]
+		if has {
+			em, isMap := existing.(map[string]any)
+			if !isMap {
 				continue
 			}
-			if sd := SubDefaults(sub, senv, depth+1); len(sd) > 0 {
-				data[p.Name] = sd
-			}
+			data[p.Name] = MergeSubDefaults(em, sub, senv, visiting)
+			continue
 		}
-	}
-	if len(data) == 0 {
-		return nil
+		if sd := MergeSubDefaults(nil, sub, senv, visiting); len(sd) > 0 {
+			data[p.Name] = sd
+		}
 	}
 	return data
 }
@@ -522,7 +549,7 @@ func convertObject(o *spec.Spec, env *Env, raw any, depth int) (any, Verdict) {
 		if p.Disabled {
 			return nil, Reject
 		}
-		mv, v := Denote(p.Type, env, raw)
+		mv, v := convert(p.Type, env, raw, depth+1)
 		if v != Accept {
 			return nil, v
 		}
@@ -545,13 +572,19 @@ func convertObject(o *spec.Spec, env *Env, raw any, depth int) (any, Verdict) {
 		if _, has := supplied[p.Name]; has {
 			continue
 		}
-		if d, ok := DefaultRaw(p); ok {
+		d, hasDefault := DefaultRaw(p)
+		if hasDefault {
 			supplied[p.Name] = d
-			continue
 		}
+		// struct-mapped parents: an absent by-value object member is completed / materialised from the defaults
+		// of its properties (documented by TestObjectNestedDefaults)
 		if o.Struct != "" {
 			if sub, senv, ok := isValueObjectMember(p, env); ok {
-				if sd := SubDefaults(sub, senv, 0); len(sd) > 0 {
+				if hasDefault {
+					if dm, isMap := d.(map[string]any); isMap {
+						supplied[p.Name] = MergeSubDefaults(dm, sub, senv, map[*spec.Spec]bool{})
+					}
+				} else if sd := SubDefaults(sub, senv, 0); len(sd) > 0 {
 					supplied[p.Name] = sd
 				}
 			}
@@ -642,9 +675,9 @@ func convertOneOf(s *spec.Spec, env *Env, raw any, depth int) (any, Verdict) {
 		return nil, v
 	}
 	m := mv.(map[string]any)
-	if o.Struct == "" {
-		m[s.Discriminator] = typed
-	}
+	// the model value always carries the (converted) discriminator; for struct-mapped members Match and ToNative
+	// know that the Go type stands for it
+	m[s.Discriminator] = typed
 	return m, Accept
 }
 
